@@ -4,25 +4,26 @@
 d="$(cd "$1" && pwd)"; wt="${SFV_SEED_WT:-/work/int/repo}"
 # the demos are written to be run from inside the worktree (`python _seed/<n>/demo.py`; several derive the streamflow root
 # from their own location): copy the seed directory to the same relative place in the scratch worktree
+lane="$(basename "$wt")"
 n="$(basename "$d")"
 stage() { mkdir -p "$wt/_seed/$n" && cp "$d"/*.py "$wt/_seed/$n/" 2>/dev/null; }
 demo="$wt/_seed/$n/demo.py"; [ -f "$d/demo.py" ] || demo="$wt/_seed/$n/test_demo.py"
-run_demo() { case "$demo" in *test_demo.py) (cd "$wt" && PYTHONPATH="$wt" timeout 600 /venv/bin/python -m pytest -q -p no:cacheprovider --timeout=300 "$demo" >/var/tmp/seed_demo.log 2>&1);; *) (cd "$wt" && PYTHONPATH="$wt" timeout 600 /venv/bin/python "$demo" >/var/tmp/seed_demo.log 2>&1);; esac; echo $?; }
+run_demo() { case "$demo" in *test_demo.py) (cd "$wt" && PYTHONPATH="$wt" timeout 600 /venv/bin/python -m pytest -q -p no:cacheprovider --timeout=300 "$demo" >/var/tmp/${lane}_seed_demo.log 2>&1);; *) (cd "$wt" && PYTHONPATH="$wt" timeout 600 /venv/bin/python "$demo" >/var/tmp/${lane}_seed_demo.log 2>&1);; esac; echo $?; }
 git -C "$wt" checkout -q -- . && git -C "$wt" clean -fdq && git -C "$wt" checkout -q --detach "$(git -C /repo rev-parse HEAD)"
 stage; echo "demo on clean tree: exit $(run_demo)"
 git -C "$wt" apply "$d/patch.diff" || { echo "PATCH DOES NOT APPLY"; exit 3; }
 echo "files touched: $(git -C "$wt" diff --stat | tail -1)"
-stage; echo "demo with patch:    exit $(run_demo)"; tail -3 /var/tmp/seed_demo.log | cut -c1-300
-mkdir -p /var/tmp/seedhome && rm -rf /var/tmp/seedhome/.streamflow
+stage; echo "demo with patch:    exit $(run_demo)"; tail -3 /var/tmp/${lane}_seed_demo.log | cut -c1-300
+mkdir -p /var/tmp/${lane}_seedhome && rm -rf /var/tmp/${lane}_seedhome/.streamflow
 # test_cwl_loop shares one sqlite file per HOME: run it serially (it is flaky under xdist on a loaded machine, with or without a patch)
-(cd "$wt" && HOME=/var/tmp/seedhome PYTHONPATH="$wt" timeout 2400 /venv/bin/python -m pytest -q -p no:cacheprovider --timeout=900 --junitxml=/var/tmp/seed_junit.xml -n 6 $(grep -v test_cwl_loop /verif/tools/stable_ids.txt) >/var/tmp/seed_tests.log 2>&1)
-(cd "$wt" && HOME=/var/tmp/seedhome PYTHONPATH="$wt" timeout 2400 /venv/bin/python -m pytest -q -p no:cacheprovider --timeout=900 --junitxml=/var/tmp/seed_junit2.xml -n 0 $(grep test_cwl_loop /verif/tools/stable_ids.txt) >/var/tmp/seed_tests2.log 2>&1)
-python3 - <<'PY'
+(cd "$wt" && HOME=/var/tmp/${lane}_seedhome PYTHONPATH="$wt" timeout 2400 /venv/bin/python -m pytest -q -p no:cacheprovider --timeout=900 --junitxml=/var/tmp/${lane}_seed_junit.xml -n 6 $(grep -v test_cwl_loop /verif/tools/stable_ids.txt) >/var/tmp/${lane}_seed_tests.log 2>&1)
+(cd "$wt" && HOME=/var/tmp/${lane}_seedhome PYTHONPATH="$wt" timeout 2400 /venv/bin/python -m pytest -q -p no:cacheprovider --timeout=900 --junitxml=/var/tmp/${lane}_seed_junit2.xml -n 0 $(grep test_cwl_loop /verif/tools/stable_ids.txt) >/var/tmp/${lane}_seed_tests2.log 2>&1)
+python3 - <<PY
 import json, xml.etree.ElementTree as ET
 stable=set(json.load(open('/root/.vp/BASELINE.json'))['stable_pass'])
 passed=set()
 import itertools
-for tc in itertools.chain(ET.parse('/var/tmp/seed_junit.xml').iter('testcase'), ET.parse('/var/tmp/seed_junit2.xml').iter('testcase')):
+for tc in itertools.chain(ET.parse('/var/tmp/${lane}_seed_junit.xml').iter('testcase'), ET.parse('/var/tmp/${lane}_seed_junit2.xml').iter('testcase')):
     if not any(c.tag in ('failure','error','skipped') for c in tc):
         passed.add(f"{tc.get('classname')}::{tc.get('name')}")
 miss=sorted(stable-passed)
